@@ -93,7 +93,7 @@ def scenario(desc, fault_at=None, fault_pair=None):
         obs['loaded'] = [p.name for p in w.config.plugins]
         obs['started'] = w.deep.started
         t0 = time.time()
-        while not w.deep.trigger_handler._tp_config and time.time() - t0 < 2 and obs['start_exc'] is None:
+        while not w.deep.trigger_handler._tp_config and time.time() - t0 < 15 and obs['start_exc'] is None:
             time.sleep(0.001)
         with rig.VirtualClock():
             run = Forwarder({path}, w.deep.trigger_handler).call(ns['f'])
